@@ -72,6 +72,22 @@ pub fn graph_from_files<P: AsRef<Path>>(
         )));
     }
 
+    // every edge must join two listed vertices (the adjacency table may have been sized from a
+    // declared or scanned count larger than the number of vertex rows)
+    if let Some(e) = e_result
+        .edges
+        .iter()
+        .find(|e| e.src_vertex_id.0 >= vertices.len() || e.dst_vertex_id.0 >= vertices.len())
+    {
+        return Err(NetworkError::DatasetError(format!(
+            "edge {} joins vertices {} and {} but the vertex list has only {} rows",
+            e.edge_id,
+            e.src_vertex_id,
+            e.dst_vertex_id,
+            vertices.len()
+        )));
+    }
+
     let graph = Graph {
         adj: e_result.adj,
         rev: e_result.rev,
